@@ -1051,6 +1051,23 @@ def _run_http_producer_turn(
                         _write_error_batch(writer, schema, overshoot, server_id=server_id)
                         break
                 cumulative_external_bytes += _flush_collector(writer, out, app._server.external_config)
+                # Post-flush backstop, mirroring ``_enforce_response_budgets`` on the
+                # unary/exchange paths.  The pre-flight above works from the data
+                # batch's logical buffer size, which is only a lower bound of what
+                # is uploaded (IPC framing, log batches riding along), so a batch
+                # that fits the cap logically can still push the uploaded total
+                # past it.  Such a turn must not be reported as successful.
+                if max_external_bytes is not None and cumulative_external_bytes > max_external_bytes:
+                    overshoot = RuntimeError(
+                        f"Externalised payload exceeds max_externalized_response_bytes "
+                        f"({cumulative_external_bytes} > {max_external_bytes}) for method {method_name!r}"
+                    )
+                    outcome.status = "error"
+                    outcome.error_type = _log_method_error(protocol_name, method_name, server_id, overshoot)
+                    outcome.error_message = _truncate_error_message(overshoot)
+                    _current_response_status.set(HTTPStatus.INTERNAL_SERVER_ERROR)
+                    _write_error_batch(writer, schema, overshoot, server_id=server_id)
+                    break
                 if out.finished:
                     break
                 cumulative_bytes = out.total_data_bytes
